@@ -18,7 +18,13 @@ import os
 
 import numpy as np
 
+import warnings
+
 import common
+
+# AegeanTools/MIMAS.py itself contains '[(\\s,)]' in a non-raw string; compiling it prints a SyntaxWarning on first
+# import (it is the repository's source, not this harness) — keep the check's output clean
+warnings.filterwarnings('ignore', category=SyntaxWarning)
 import corr_C08 as c8
 
 LEVEL = 'proof'
